@@ -419,6 +419,8 @@ class BuiltinModel:
             return self.dec_prop(v, name)
         if name in ("adjusted", "quantize", "as_integer_ratio"):
             return VFunc("Decimal." + name, bound=v)
+        if name == "normalize" and v.known_tag() == T_STDDEC:
+            return VFunc("Decimal.stdnormalize", bound=v)
         raise Unsupported(f"number attribute {name}")
 
     def dec_prop(self, v: VRat, name: str) -> V:
@@ -1110,6 +1112,22 @@ class BuiltinModel:
         if n is None:
             return x
         raise Unsupported("adjusted(n)")
+
+    def bi_Decimal_stdnormalize(self, x, context=None):
+        """decimal.Decimal.normalize(): strips trailing zeros *and rounds to
+        the context precision* (28 significant digits by default), so the
+        result is only known to lie within a relative distance of 1e-27 of x;
+        it equals x for integers below 10**28 in magnitude"""
+        self.ledger("A2: decimal.Decimal.normalize() rounds to the context "
+                    "precision (relative error <= 1e-27; exact for integers "
+                    "below 1e28)")
+        r = self.path.fresh("stdnorm", z3.RealSort())
+        eps = z3.RealVal("1/1000000000000000000000000000")
+        ax = z3.If(x.t >= 0, x.t, -x.t)
+        self.path.assume(z3.And(r - x.t <= ax * eps, x.t - r <= ax * eps))
+        self.path.assume(z3.Implies(
+            z3.And(z3.IsInt(x.t), ax < z3.RealVal(10 ** 28)), r == x.t))
+        return VRat(r, x.tag)
 
     def bi_Decimal_quantize(self, x, quant, rounding=None):
         self.ledger("A2: Decimal.quantize(q, rounding) = nearest multiple of "
